@@ -63,7 +63,8 @@ def run(chk):
     x86order.nodisp_not_bp(chk, emit, UNIT)
     x86order.index_scale_seen(chk, emit, UNIT)
     from lib import ubsigned
-    ubsigned.run(chk, [emit], floor=3)
+    helpers_ub = [g for g in cfg.load_functions(chk.facts(UNIT, funcs=r"asmjit::x86::[a-z_0-9]+$")) if g.file.endswith("x86assembler.cpp")]
+    ubsigned.run(chk, [emit] + helpers_ub, floor=3)
     from lib import evexsiblings
     evexsiblings.run(chk)
     fd = chk.facts(DBUNIT, tables=r"asmjit::x86::InstDB::(_inst_info_table|main_opcode_table|alt_opcode_table)$", enums=r"asmjit::x86::Inst::Id$|asmjit::x86::Opcode::Bits$")
